@@ -134,3 +134,28 @@ func init() {
 		return false, "the unconvertible conversion does not stay pending", sc
 	})
 }
+
+func init() {
+	// C15 quantifies over every alignment of the activations with the 144-block cadence: the
+	// developer-reward activation ON a snapshot height with holders to pay cannot be synced.
+	RegisterProbe("C15/zeroing-at-snapshot-height", func() (bool, string, interface{}) {
+		k := uint32(5)
+		start := 144*k - 6
+		era := ModernEra(start)
+		era.V202, era.OneWaySmall = Never, Never
+		era.V20Dev, era.SprSig = 144*(k+1), 144*(k+1)
+		w := newDetWorld(era, 40)
+		w.Commit(&Block{OPR: w.DetOPRSetRot(26, 40)})
+		a := w.Actors[0]
+		w.Commit(&Block{OPR: w.DetOPRSetRot(26, 40), TX: []Entry{FATEntry(w.H(), 1, 0, a, []Tx{{From: a.FA(), Asset: "PEG", Amt: 50e8, Conv: "pUSD"}})}})
+		w.Commit(&Block{OPR: w.DetOPRSetRot(26, 40)})
+		w.SkipTo(144 * k)
+		w.Commit(&Block{OPR: w.DetOPRSetRot(26, 40)})
+		w.SkipTo(144 * (k + 1))
+		w.Commit(&Block{OPR: w.DetOPRSetRot(26, 40)}) // second snapshot = developer-reward activation
+		w.Commit(&Block{OPR: w.DetOPRSetRot(26, 40)})
+		sc := w.Scenario()
+		msg, _ := checkLiveness(sc)
+		return msg != "", trunc(msg, 400), sc
+	})
+}
